@@ -5,5 +5,7 @@ C10 — helper lemmas (umbrella).  The development is split over
   Sim1 … Sim8                         simulation of connect, TOPIC, CHGHOST, KICK, PART, JOIN (others), QUIT,
                                       NICK, reconnect, MODE
   Burst1 … Burst7                     NAMES / WHO / 324 / 329 / 367 replies, the bot's own JOIN, `run_inv`
+  BatchSim                            everything the server emits is an ordinary message; batches; `runB_inv`
 -/
 import LimnoriaModel.C10.Burst7
+import LimnoriaModel.C10.BatchSim
